@@ -45,6 +45,9 @@ Shapes ==
                                        !.maps = << [submaps |-> 2, coupling |-> << <<0, 2>> >>, mux |-> <<0, 1, 0>>, sfloor |-> <<0, 1>>, sres |-> <<0, 1>>] >>]],
     [name |-> "three-modes", s |-> [Base(2, 6, 10, 1) EXCEPT !.maps = << Map1(TRUE), Map1(FALSE) >>,
                                        !.modes = Modes \o << [bf |-> 1, wt |-> 0, tt |-> 0, map |-> 1] >>]],
+    [name |-> "unreferenced-mappings", s |-> [Base(2, 6, 9, 1) EXCEPT !.maps = << Map1(TRUE), Map1(FALSE), Map1(TRUE), Map1(FALSE) >>]],
+    [name |-> "unreferenced-floors-residues-books", s |-> [Base(2, 6, 9, 1) EXCEPT !.floors = << Floor1(0, 4), Floor1(0, 5), Floor1(0, 6) >>, !.residues = << Res(1, 6, FALSE), Res(0, 6, TRUE), Res(2, 6, TRUE) >>,
+                                                                       !.books = << Full(2, 1), Full(2, 2), Lattice(2, 2), Explicit(2, 2), OrderedBook, SparseBook >>]],
     [name |-> "255-channels", s |-> [Base(255, 6, 6, 1) EXCEPT !.maps = << Map1(FALSE) >>]],
     [name |-> "floor1-no-partitions", s |-> [Base(1, 6, 8, 1) EXCEPT !.floors = << [Floor1(0, 4) EXCEPT !.parts = <<>>, !.cdim = <<>>, !.csubs = <<>>, !.cbook = <<>>, !.csub = <<>>, !.posts = <<>>] >>]] }
 
@@ -88,6 +91,8 @@ Mutations ==
     [name |-> "submap-floor-out-of-range", s |-> [B0 EXCEPT !.maps[1].sfloor = <<1>>]],
     [name |-> "submap-residue-out-of-range", s |-> [B0 EXCEPT !.maps[1].sres = <<1>>]],
     [name |-> "mode-mapping-out-of-range", s |-> [B0 EXCEPT !.modes[2].map = 1]],
+    [name |-> "mode-windowtype-1-after-four-mappings", s |-> [B0 EXCEPT !.maps = << Map1(TRUE), Map1(FALSE), Map1(TRUE), Map1(FALSE) >>, !.modes[1].wt = 1]],
+    [name |-> "mapping-refused-after-three-floors-residues", s |-> [B0 EXCEPT !.floors = << Floor1(0, 4), Floor1(0, 5), Floor1(0, 6) >>, !.residues = << Res(1, 6, FALSE), Res(0, 6, TRUE), Res(2, 6, TRUE) >>, !.maps[1].sres = <<3>>]],
     [name |-> "mode-windowtype-1", s |-> [B0 EXCEPT !.modes[1].wt = 1]],
     [name |-> "mode-transformtype-1", s |-> [B0 EXCEPT !.modes[1].tt = 1]] }
 
@@ -109,6 +114,8 @@ Crossed(s) == [s EXCEPT !.residues = s.residues \o << [s.residues[1] EXCEPT !.ca
                         !.modes = << [bf |-> 0, wt |-> 0, tt |-> 0, map |-> 1], [bf |-> 1, wt |-> 0, tt |-> 0, map |-> 0] >>]
 ResCases == { [name |-> "residue-explicit-values", seq |-> TRUE, s |-> [ResSetup(ch, 6, 7, rt, 8, FALSE) EXCEPT !.books[3] = ExplicitVals]] : ch \in {1, 2}, rt \in {0, 1, 2} } \cup
             { [name |-> "residue-crossed-modes", seq |-> FALSE, s |-> Crossed(ResSetup(ch, 6, 7, rt, 4, FALSE))] : ch \in {1, 2}, rt \in {0, 1, 2} } \cup
+            { [name |-> "residue-dim-not-dividing", seq |-> FALSE, s |-> [ResSetup(ch, 6, 7, rt, 8, FALSE) EXCEPT !.books[3] = Lattice(2, dd[1]), !.books[4] = VarBook(dd[2], 1)]] :
+                ch \in {1, 2}, rt \in {0, 1, 2}, dd \in {<<3, 5>>, <<100, 3>>, <<7, 1000>>, <<16, 12>>} } \cup
             { [name |-> "residue", seq |-> FALSE, s |-> ResSetup(ch, 6, e1, rt, ps, cp)] : ch \in {1, 2}, e1 \in {6, 7}, rt \in {0, 1, 2}, ps \in {4, 8}, cp \in {FALSE, TRUE} }
 Sizes == { [name |-> "sizes", s |-> Base(ch, e0, e1, rt)] : ch \in {1, 2}, e0 \in 6..13, e1 \in 6..13, rt \in {1} }
 Cases == CASE Family = "sizes" -> { x \in Sizes : x.s.e0 <= x.s.e1 } [] Family = "shapes" -> Shapes [] Family = "residue" -> { x \in ResCases : x.s.ch >= 2 \/ x.s.maps[1].coupling = <<>> } [] OTHER -> Mutations
